@@ -3,6 +3,8 @@ import Mathlib.Tactic.Ring
 import Mathlib.Tactic.Positivity
 import Mathlib.Tactic.NormNum
 import Mathlib.Algebra.Order.Field.Power
+import Mathlib.Tactic.FieldSimp
+import Dasp.Model.SqrtTrick
 
 /-! no_std `sqrt` bit trick (dasp_sample/src/ops.rs): `from_bits((to_bits(x) + BIAS) >> 1)`.
     For a normal x = 2^e·(1+m), 0 ≤ m < 1, the result is
@@ -34,6 +36,144 @@ theorem seven_percent (a2 x ε : ℚ) (hx : 0 ≤ x) (hε : ε ≤ 1/10) (h1 : (
     (93/100)^2 * x ≤ a2 ∧ a2 ≤ (107/100)^2 * x := by
   constructor <;> nlinarith
 
-#print axioms even_case
-#print axioms odd_case
+
+/-! ## from the rational core to the bit pattern -/
+
+theorem zpow_two_mul (j : ℤ) : (2:ℚ) ^ (2 * j) = ((2:ℚ) ^ j) ^ 2 := by
+  rw [two_mul, zpow_add₀ (by norm_num : (2:ℚ) ≠ 0), sq]
+
+theorem zpow_two_mul_add_one (j : ℤ) : (2:ℚ) ^ (2 * j + 1) = ((2:ℚ) ^ j) ^ 2 * 2 := by
+  rw [zpow_add_one₀ (by norm_num : (2:ℚ) ≠ 0), zpow_two_mul]
+
+/-- value of the positive normal binary float with biased exponent field `E` and mantissa field `M`
+    (`p` mantissa bits, exponent bias `bias`): `2^(E − bias) · (1 + M / 2^p)` (IEEE 754) -/
+def normVal (p : ℕ) (bias : ℤ) (E M : ℕ) : ℚ := (2:ℚ) ^ ((E:ℤ) - bias) * (1 + (M:ℚ) / 2 ^ p)
+
+theorem normVal_pos (p : ℕ) (bias : ℤ) (E M : ℕ) : 0 < normVal p bias E M := by
+  unfold normVal; positivity
+
+private theorem delta_small (p : ℕ) (hp : 19 ≤ p) : (1:ℚ) / 2 ^ (p + 1) ≤ 1 / 1000000 := by
+  have h : (2:ℚ) ^ 20 ≤ 2 ^ (p + 1) := pow_le_pow_right₀ (by norm_num) (by omega)
+  have h20 : (1000000:ℚ) ≤ 2 ^ 20 := by norm_num
+  exact one_div_le_one_div_of_le (by norm_num) (le_trans h20 h)
+
+private theorem half_bounds (p M M' : ℕ) (h1 : 2 * M' ≤ M) (h2 : M ≤ 2 * M' + 1) :
+    ((M:ℚ) / 2 ^ p) / 2 - 1 / 2 ^ (p + 1) ≤ (M':ℚ) / 2 ^ p ∧ (M':ℚ) / 2 ^ p ≤ ((M:ℚ) / 2 ^ p) / 2 := by
+  have hP : (0:ℚ) < 2 ^ p := by positivity
+  have e1 : (2:ℚ) * M' ≤ M := by exact_mod_cast h1
+  have e2 : (M:ℚ) ≤ 2 * M' + 1 := by exact_mod_cast h2
+  rw [pow_succ]
+  constructor
+  · rw [div_div, ← sub_div, div_le_div_iff₀ (by positivity) hP]
+    nlinarith
+  · rw [div_div, div_le_div_iff₀ hP (by positivity)]
+    nlinarith
+
+/-- even unbiased exponent `2j`: the halved pattern is `2^j · (1 + ⌊M/2⌋/2^p)` -/
+theorem bound_even (p : ℕ) (hp : 19 ≤ p) (j : ℤ) (M M' : ℕ) (hM : M < 2 ^ p) (h1 : 2 * M' ≤ M) (h2 : M ≤ 2 * M' + 1) :
+    (1 - 3 / 2 ^ (p + 1)) * ((2:ℚ) ^ (2 * j) * (1 + (M:ℚ) / 2 ^ p)) ≤ ((2:ℚ) ^ j * (1 + (M':ℚ) / 2 ^ p)) ^ 2 ∧
+    ((2:ℚ) ^ j * (1 + (M':ℚ) / 2 ^ p)) ^ 2 ≤ (9/8) * ((2:ℚ) ^ (2 * j) * (1 + (M:ℚ) / 2 ^ p)) := by
+  have hP : (0:ℚ) < 2 ^ p := by positivity
+  have hm0 : (0:ℚ) ≤ (M:ℚ) / 2 ^ p := by positivity
+  have hm1 : (M:ℚ) / 2 ^ p < 1 := by rw [div_lt_one hP]; exact_mod_cast hM
+  obtain ⟨hl, hu⟩ := half_bounds p M M' h1 h2
+  have := even_case ((M:ℚ) / 2 ^ p) ((M':ℚ) / 2 ^ p) (1 / 2 ^ (p + 1)) (((2:ℚ) ^ j) ^ 2) hm0 hm1 (by positivity)
+    (delta_small p hp) (by positivity) hl hu (by positivity)
+  rw [zpow_two_mul, mul_pow]
+  have e : (3:ℚ) / 2 ^ (p + 1) = 3 * (1 / 2 ^ (p + 1)) := by ring
+  rw [e]; exact this
+
+/-- odd unbiased exponent `2j+1`: the halved pattern is `2^j · (1 + (2^(p-1) + ⌊M/2⌋)/2^p)` -/
+theorem bound_odd (p : ℕ) (hp : 19 ≤ p) (j : ℤ) (M M' : ℕ) (hM : M < 2 ^ p) (h1 : 2 * M' ≤ M) (h2 : M ≤ 2 * M' + 1) :
+    (1 - 3 / 2 ^ (p + 1)) * ((2:ℚ) ^ (2 * j + 1) * (1 + (M:ℚ) / 2 ^ p)) ≤ ((2:ℚ) ^ j * (1 + ((2 ^ (p - 1) + M' : ℕ):ℚ) / 2 ^ p)) ^ 2 ∧
+    ((2:ℚ) ^ j * (1 + ((2 ^ (p - 1) + M' : ℕ):ℚ) / 2 ^ p)) ^ 2 ≤ (9/8) * ((2:ℚ) ^ (2 * j + 1) * (1 + (M:ℚ) / 2 ^ p)) := by
+  have hP : (0:ℚ) < 2 ^ p := by positivity
+  have hm0 : (0:ℚ) ≤ (M:ℚ) / 2 ^ p := by positivity
+  have hm1 : (M:ℚ) / 2 ^ p < 1 := by rw [div_lt_one hP]; exact_mod_cast hM
+  obtain ⟨hl, hu⟩ := half_bounds p M M' h1 h2
+  have := odd_case ((M:ℚ) / 2 ^ p) ((M':ℚ) / 2 ^ p) (1 / 2 ^ (p + 1)) (((2:ℚ) ^ j) ^ 2) hm0 hm1 (by positivity)
+    (delta_small p hp) (by positivity) hl hu (by positivity)
+  have hpp : (2:ℚ) ^ p = 2 * 2 ^ (p - 1) := by
+    rw [← pow_succ']; congr 1; omega
+  have ea : (1:ℚ) + ((2 ^ (p - 1) + M' : ℕ):ℚ) / 2 ^ p = 3/2 + (M':ℚ) / 2 ^ p := by
+    push_cast
+    rw [add_div, hpp]
+    have : (0:ℚ) < 2 ^ (p - 1) := by positivity
+    field_simp
+    ring
+  rw [ea, zpow_two_mul_add_one, mul_pow]
+  have e : (3:ℚ) / 2 ^ (p + 1) = 3 * (1 / 2 ^ (p + 1)) := by ring
+  rw [e, mul_assoc (((2:ℚ) ^ j) ^ 2) 2]
+  exact this
+
+open Dasp.Gen.Sqrt in
+/-- **f32, bit level.**  For every positive normal binary32 pattern (exponent field `1 ≤ E ≤ 254`,
+    mantissa field `M < 2^23`) the pattern `(bits + BIAS) >> SHIFT` computed by the no_std
+    `ops::f32::sqrt` — with `BIAS`, `SHIFT` as read from ops.rs on this run — is again a positive
+    normal pattern (the `u32` addition does not wrap), and its value `a` satisfies
+    `(1 − 3·2^−24)·x ≤ a² ≤ (9/8)·x`. -/
+theorem approx32_bound (E M : ℕ) (hE1 : 1 ≤ E) (hE2 : E ≤ 254) (hM : M < 2 ^ 23) :
+    let r := approx32 (E * 2 ^ 23 + M)
+    E * 2 ^ 23 + M + bias32 < 2 ^ 32 ∧ 1 ≤ r / 2 ^ 23 ∧ r / 2 ^ 23 ≤ 254 ∧
+    (1 - 3 / 2 ^ 24) * normVal 23 127 E M ≤ (normVal 23 127 (r / 2 ^ 23) (r % 2 ^ 23)) ^ 2 ∧
+    (normVal 23 127 (r / 2 ^ 23) (r % 2 ^ 23)) ^ 2 ≤ (9/8) * normVal 23 127 E M := by
+  intro r
+  have hr : r = ((E * 8388608 + M + 1065353216) % 4294967296) / 2 := by
+    simp only [r, approx32, approxBits, bias32, shift32, Nat.shiftRight_eq_div_pow]; norm_num
+  norm_num at hM
+  rcases Nat.even_or_odd' E with ⟨a, rfl | rfl⟩
+  · -- even exponent field = odd unbiased exponent 2(a-64)+1
+    have hq : r / 2 ^ 23 = a + 63 := by norm_num; omega
+    have hm : r % 2 ^ 23 = 2 ^ (23 - 1) + M / 2 := by norm_num; omega
+    refine ⟨by simp only [bias32]; omega, by omega, by omega, ?_⟩
+    rw [hq, hm]
+    have := bound_odd 23 (by norm_num) ((a:ℤ) - 64) M (M / 2) (by norm_num; exact hM) (by omega) (by omega)
+    unfold normVal
+    rw [show ((2 * a : ℕ):ℤ) - 127 = 2 * ((a:ℤ) - 64) + 1 by push_cast; ring,
+        show ((a + 63 : ℕ):ℤ) - 127 = (a:ℤ) - 64 by push_cast; ring]
+    exact this
+  · -- odd exponent field = even unbiased exponent 2(a-63)
+    have hq : r / 2 ^ 23 = a + 64 := by norm_num; omega
+    have hm : r % 2 ^ 23 = M / 2 := by norm_num; omega
+    refine ⟨by simp only [bias32]; omega, by omega, by omega, ?_⟩
+    rw [hq, hm]
+    have := bound_even 23 (by norm_num) ((a:ℤ) - 63) M (M / 2) (by norm_num; exact hM) (by omega) (by omega)
+    unfold normVal
+    rw [show ((2 * a + 1 : ℕ):ℤ) - 127 = 2 * ((a:ℤ) - 63) by push_cast; ring,
+        show ((a + 64 : ℕ):ℤ) - 127 = (a:ℤ) - 63 by push_cast; ring]
+    exact this
+
+open Dasp.Gen.Sqrt in
+/-- **f64, bit level** (exponent field `1 ≤ E ≤ 2046`, mantissa field `M < 2^52`, bias 1023):
+    `(1 − 3·2^−53)·x ≤ a² ≤ (9/8)·x`.  This is the theorem that fails to check when ops.rs carries the
+    f32 bias in the f64 function (the defect fixed in 5eee3f8). -/
+theorem approx64_bound (E M : ℕ) (hE1 : 1 ≤ E) (hE2 : E ≤ 2046) (hM : M < 2 ^ 52) :
+    let r := approx64 (E * 2 ^ 52 + M)
+    E * 2 ^ 52 + M + bias64 < 2 ^ 64 ∧ 1 ≤ r / 2 ^ 52 ∧ r / 2 ^ 52 ≤ 2046 ∧
+    (1 - 3 / 2 ^ 53) * normVal 52 1023 E M ≤ (normVal 52 1023 (r / 2 ^ 52) (r % 2 ^ 52)) ^ 2 ∧
+    (normVal 52 1023 (r / 2 ^ 52) (r % 2 ^ 52)) ^ 2 ≤ (9/8) * normVal 52 1023 E M := by
+  intro r
+  have hr : r = ((E * 4503599627370496 + M + 4607182418800017408) % 18446744073709551616) / 2 := by
+    simp only [r, approx64, approxBits, bias64, shift64, Nat.shiftRight_eq_div_pow]; norm_num
+  norm_num at hM
+  rcases Nat.even_or_odd' E with ⟨a, rfl | rfl⟩
+  · have hq : r / 2 ^ 52 = a + 511 := by norm_num; omega
+    have hm : r % 2 ^ 52 = 2 ^ (52 - 1) + M / 2 := by norm_num; omega
+    refine ⟨by simp only [bias64]; omega, by omega, by omega, ?_⟩
+    rw [hq, hm]
+    have := bound_odd 52 (by norm_num) ((a:ℤ) - 512) M (M / 2) (by norm_num; exact hM) (by omega) (by omega)
+    unfold normVal
+    rw [show ((2 * a : ℕ):ℤ) - 1023 = 2 * ((a:ℤ) - 512) + 1 by push_cast; ring,
+        show ((a + 511 : ℕ):ℤ) - 1023 = (a:ℤ) - 512 by push_cast; ring]
+    exact this
+  · have hq : r / 2 ^ 52 = a + 512 := by norm_num; omega
+    have hm : r % 2 ^ 52 = M / 2 := by norm_num; omega
+    refine ⟨by simp only [bias64]; omega, by omega, by omega, ?_⟩
+    rw [hq, hm]
+    have := bound_even 52 (by norm_num) ((a:ℤ) - 511) M (M / 2) (by norm_num; exact hM) (by omega) (by omega)
+    unfold normVal
+    rw [show ((2 * a + 1 : ℕ):ℤ) - 1023 = 2 * ((a:ℤ) - 511) by push_cast; ring,
+        show ((a + 512 : ℕ):ℤ) - 1023 = (a:ℤ) - 511 by push_cast; ring]
+    exact this
+
 end Dasp.SqrtTrick
